@@ -232,6 +232,29 @@ func genTrees(c *Ctx, which string, seeds []seedBox) {
 			pool[t] = append(pool[t], sb.bs)
 		}
 	}
+	// the same leaves with slack: payload bytes behind the last field the box defines (a size field that says more than
+	// the content needs). A decoder that stops reading early leaves a slice reader inside the box, and the container
+	// then parses the slack as boxes: both decode paths must treat such a leaf alike
+	rs := rand.New(rand.NewSource(c.Seed*31337 + 1))
+	for _, t := range append([]string{}, types...) {
+		l := pool[t]
+		if len(l) == 0 || modelledBoxes[t] || binary.BigEndian.Uint32(l[0]) == 1 {
+			continue
+		}
+		src := l[rs.Intn(len(l))]
+		var slack []byte
+		if rs.Intn(2) == 0 {
+			slack = []byte{0, 0, 0, 8, 'f', 'r', 'e', 'e'} // looks like a box
+		} else {
+			slack = make([]byte, 1+rs.Intn(16))
+			rs.Read(slack)
+		}
+		b := append(append([]byte{}, src...), slack...)
+		binary.BigEndian.PutUint32(b, uint32(len(b)))
+		if len(pool[t]) < 10 {
+			pool[t] = append(pool[t], b)
+		}
+	}
 	r := rand.New(rand.NewSource(c.Seed*7919 + 13))
 	// boxes of types the registry does not know (UnknownBox: kept verbatim)
 	if reg := registeredTypes(); len(reg) > 1 {
